@@ -145,7 +145,8 @@ class Contract:
     recursive_stub = None
     ctx_class = Ctx
     assumptions = ()
-    solver_timeout_ms = 15000
+    solver_timeout_ms = 8000
+    shard_bits = 0
     max_paths = 4000
 
     def cases(self):
@@ -173,6 +174,7 @@ class Result:
         self.kind = "prove"
         self.sample_smt = None
         self.pc_unknown = 0
+        self.skipped = 0
 
     @property
     def status(self):
@@ -202,7 +204,7 @@ def model_text(m, limit=40):
     return "; ".join(out)[:3000]
 
 
-def verify_contract(contract, want_smt_sample=True, log=None):
+def verify_contract(contract, want_smt_sample=True, log=None, shard=()):
     """Run all cases / paths of one contract. Returns dict(results: name->Result, paths, undecided: [msg], ...)."""
     rp = repo()
     t0 = time.time()
@@ -214,8 +216,9 @@ def verify_contract(contract, want_smt_sample=True, log=None):
         return out
     for case in contract.cases():
         cname = contract.case_name(case)
-        work = [[]]
+        work = [list(shard)]
         npaths = 0
+        k_sh = len(shard)
         while work:
             prefix = work.pop()
             npaths += 1
@@ -244,7 +247,7 @@ def verify_contract(contract, want_smt_sample=True, log=None):
                 pass
             except Unsupported as u:
                 out["undecided"].append(f"{contract.target}[{cname}] path `{ex.path_tag()[:200]}`: unsupported: {u.msg}")
-                work.extend(ex.pending)
+                work.extend(pp for pp in ex.pending if len(pp) > k_sh)
                 continue
             except RaiseSignal as r:  # raised by setup/post machinery itself
                 out["errors"].append(f"{contract.target}[{cname}]: contract machinery raised {r.exc!r}")
@@ -253,6 +256,8 @@ def verify_contract(contract, want_smt_sample=True, log=None):
             except Exception:
                 out["errors"].append(f"{contract.target}[{cname}] path `{ex.path_tag()[:200]}`: {traceback.format_exc()[-1500:]}")
             out["assumptions"] |= ex.assumptions_used
+            if len(ex.trace) < k_sh and not all(shard[len(ex.trace):]):
+                continue  # this short path is reported by the shard whose remaining bits are all True
             path_sat = None  # satisfiability of the final path condition, checked lazily once per path
             for ob in ex.obl:
                 res = out["results"].setdefault(ob.name, Result(ob.name))
@@ -267,6 +272,9 @@ def verify_contract(contract, want_smt_sample=True, log=None):
                         res.vacuous += 1
                     else:
                         res.unknown.append((cname, ob.path[:300], verdict, ""))
+                    continue
+                if res.failed or len(res.unknown) >= 2:
+                    res.skipped += 1      # this obligation already has a counter-model / is already undecided: one witness is enough
                     continue
                 verdict, m, dt = core.solve(ob.pc, ob.goal, contract.solver_timeout_ms)
                 if verdict == "unknown":
@@ -294,7 +302,7 @@ def verify_contract(contract, want_smt_sample=True, log=None):
                     out["models"].setdefault(ob.name, (case, m, ob))
                 else:
                     res.unknown.append((cname, ob.path[:300], "unknown", ""))
-            work.extend(ex.pending)
+            work.extend(pp for pp in ex.pending if len(pp) > k_sh)
         out["paths"] += npaths
     out["wall_s"] = time.time() - t0
     return out
